@@ -48,7 +48,12 @@ type Transaction struct {
 func NewTransaction(config *TransactionConfig) *Transaction {
 	var resultCh chan TransactionResult
 	if !config.IgnoreResult {
-		resultCh = make(chan TransactionResult)
+		// One slot: a transaction gets exactly one result (whoever takes it out
+		// of the table writes it), and the writer - the client's read loop or
+		// the retransmission timer holding the table lock - must not depend on
+		// the waiter being there: PerformTransaction does not wait when its
+		// first write fails.
+		resultCh = make(chan TransactionResult, 1)
 	}
 
 	return &Transaction{
